@@ -140,4 +140,141 @@ theorem lbClose_inv (l : LineBreaker) (s : Bytes) (h : LbInv l s) : lbClose l = 
     rw [hs, wrapLines_append _ _ ha, wrapLines_short _ h0 (by omega), ho]
     simp
 
+/-! ### the text determines the key -/
+
+theorem b64Byte_inj (i j : Nat) (hi : i < 64) (hj : j < 64) (h : b64Byte i = b64Byte j) : i = j := by
+  have : ∀ a b : Fin 64, b64Byte a.val = b64Byte b.val → a.val = b.val := by decide +kernel
+  exact this ⟨i, hi⟩ ⟨j, hj⟩ h
+
+theorem b64Byte_ne_pad (i : Nat) (hi : i < 64) : b64Byte i ≠ 0x3d#8 := by
+  have : ∀ a : Fin 64, b64Byte a.val ≠ 0x3d#8 := by decide +kernel
+  exact this ⟨i, hi⟩
+
+theorem b64Byte_ne_nl (i : Nat) : b64Byte i ≠ 0x0a#8 := by
+  by_cases hi : i < 64
+  · have : ∀ a : Fin 64, b64Byte a.val ≠ 0x0a#8 := by decide +kernel
+    exact this ⟨i, hi⟩
+  · unfold b64Byte
+    have h1 : ¬ i < 26 := by omega
+    have h2 : ¬ i < 52 := by omega
+    have h3 : ¬ i < 62 := by omega
+    have h4 : ¬ i = 62 := by omega
+    simp [h1, h2, h3, h4]
+
+theorem byte_eq_of_toNat {x y : Byte} (h : x.toNat = y.toNat) : x = y := BitVec.eq_of_toNat_eq h
+
+theorem b64Std_inj (a b : Bytes) (h : b64Std a = b64Std b) : a = b := by
+  induction hn : a.length using Nat.strongRecOn generalizing a b with
+  | _ n ih =>
+    match a, b, h with
+    | [], [], _ => rfl
+    | [], [_], h => simp [b64Std] at h
+    | [], [_, _], h => simp [b64Std] at h
+    | [], _ :: _ :: _ :: _, h => simp [b64Std] at h
+    | [_], [], h => simp [b64Std] at h
+    | [_, _], [], h => simp [b64Std] at h
+    | _ :: _ :: _ :: _, [], h => simp [b64Std] at h
+    | [x], [x'], h =>
+      simp only [b64Std, List.cons.injEq, and_true] at h
+      have hx := x.isLt; have hx' := x'.isLt
+      have e1 := b64Byte_inj _ _ (by omega) (by omega) h.1
+      have e2 := b64Byte_inj _ _ (by omega) (by omega) h.2
+      rw [byte_eq_of_toNat (x := x) (y := x') (by omega)]
+    | [x], [x', y'], h =>
+      simp only [b64Std, List.cons.injEq, and_true] at h
+      have hy' := y'.isLt
+      exact absurd h.2.2.symm (b64Byte_ne_pad _ (by omega))
+    | [x, y], [x'], h =>
+      simp only [b64Std, List.cons.injEq, and_true] at h
+      have hy := y.isLt
+      exact absurd h.2.2 (b64Byte_ne_pad _ (by omega))
+    | [x, y], [x', y'], h =>
+      simp only [b64Std, List.cons.injEq, and_true] at h
+      have hx := x.isLt; have hx' := x'.isLt; have hy := y.isLt; have hy' := y'.isLt
+      have e1 := b64Byte_inj _ _ (by omega) (by omega) h.1
+      have e2 := b64Byte_inj _ _ (by omega) (by omega) h.2.1
+      have e3 := b64Byte_inj _ _ (by omega) (by omega) h.2.2
+      rw [byte_eq_of_toNat (x := x) (y := x') (by omega), byte_eq_of_toNat (x := y) (y := y') (by omega)]
+    | [x], x' :: y' :: z' :: r', h =>
+      simp only [b64Std, List.cons.injEq] at h
+      have hy' := y'.isLt; have hz' := z'.isLt
+      exact absurd h.2.2.1.symm (b64Byte_ne_pad _ (by omega))
+    | [x, y], x' :: y' :: z' :: r', h =>
+      simp only [b64Std, List.cons.injEq] at h
+      have hz' := z'.isLt
+      exact absurd h.2.2.2.1.symm (b64Byte_ne_pad _ (by omega))
+    | x :: y :: z :: r, [x'], h =>
+      simp only [b64Std, List.cons.injEq] at h
+      have hy := y.isLt; have hz := z.isLt
+      exact absurd h.2.2.1 (b64Byte_ne_pad _ (by omega))
+    | x :: y :: z :: r, [x', y'], h =>
+      simp only [b64Std, List.cons.injEq] at h
+      have hz := z.isLt
+      exact absurd h.2.2.2.1 (b64Byte_ne_pad _ (by omega))
+    | x :: y :: z :: r, x' :: y' :: z' :: r', h =>
+      simp only [b64Std, List.cons.injEq] at h
+      have hx := x.isLt; have hx' := x'.isLt; have hy := y.isLt; have hy' := y'.isLt
+      have hz := z.isLt; have hz' := z'.isLt
+      have e1 := b64Byte_inj _ _ (by omega) (by omega) h.1
+      have e2 := b64Byte_inj _ _ (by omega) (by omega) h.2.1
+      have e3 := b64Byte_inj _ _ (by omega) (by omega) h.2.2.1
+      have e4 := b64Byte_inj _ _ (by omega) (by omega) h.2.2.2.1
+      have hr := ih r.length (by simp at hn; omega) r r' h.2.2.2.2 rfl
+      rw [byte_eq_of_toNat (x := x) (y := x') (by omega), byte_eq_of_toNat (x := y) (y := y') (by omega),
+        byte_eq_of_toNat (x := z) (y := z') (by omega), hr]
+
+/-- no base64 character is a line feed -/
+theorem b64Std_no_nl (a : Bytes) : ∀ c ∈ b64Std a, c ≠ 0x0a#8 := by
+  induction hn : a.length using Nat.strongRecOn generalizing a with
+  | _ n ih =>
+    match a with
+    | [] => simp [b64Std]
+    | [x] =>
+      intro c hc
+      simp only [b64Std, List.mem_cons, List.not_mem_nil, or_false] at hc
+      rcases hc with rfl | rfl | rfl | rfl
+      · exact b64Byte_ne_nl _
+      · exact b64Byte_ne_nl _
+      · decide
+      · decide
+    | [x, y] =>
+      intro c hc
+      simp only [b64Std, List.mem_cons, List.not_mem_nil, or_false] at hc
+      rcases hc with rfl | rfl | rfl | rfl
+      · exact b64Byte_ne_nl _
+      · exact b64Byte_ne_nl _
+      · exact b64Byte_ne_nl _
+      · decide
+    | x :: y :: z :: r =>
+      intro c hc
+      simp only [b64Std, List.mem_cons] at hc
+      rcases hc with rfl | rfl | rfl | rfl | hc
+      · exact b64Byte_ne_nl _
+      · exact b64Byte_ne_nl _
+      · exact b64Byte_ne_nl _
+      · exact b64Byte_ne_nl _
+      · exact ih r.length (by simp at hn; omega) r rfl c hc
+
+/-- removing the line feeds from the wrapped text gives the text back -/
+theorem filter_wrapLines (t : Bytes) (h : ∀ c ∈ t, c ≠ 0x0a#8) :
+    (wrapLines t).filter (fun c => c != 0x0a#8) = t := by
+  induction hn : t.length using Nat.strongRecOn generalizing t with
+  | _ n ih =>
+    by_cases h0 : t = []
+    · simp [h0, wrapLines_nil]
+    · rw [wrapLines]
+      simp only [h0, dite_false, List.filter_append, List.filter_cons]
+      have hpos := List.length_pos_iff.mpr h0
+      have ht : (t.take 76).filter (fun c => c != 0x0a#8) = t.take 76 := by
+        apply List.filter_eq_self.mpr
+        intro c hc
+        simpa using h c (List.mem_of_mem_take hc)
+      have hd := ih (t.drop 76).length (by simp only [List.length_drop]; omega) (t.drop 76)
+        (fun c hc => h c (List.mem_of_mem_drop hc)) rfl
+      simp [ht, hd]
+
+theorem wrapLines_inj (s t : Bytes) (hs : ∀ c ∈ s, c ≠ 0x0a#8) (ht : ∀ c ∈ t, c ≠ 0x0a#8)
+    (h : wrapLines s = wrapLines t) : s = t := by
+  rw [← filter_wrapLines s hs, ← filter_wrapLines t ht, h]
+
 end GoMC.Lemmas
